@@ -4,6 +4,7 @@
 #    demonstration fails with it and passes without it;
 # 2. applies it to /repo, runs the owning check, undoes it. Prints one summary line.
 export GOFLAGS=-mod=mod GOPROXY=off GOSUMDB=off GOTOOLCHAIN=local
+export VERIF_EVIDENCE_DIR=/tmp/verif-seed-evidence
 D=$1; ID=$2; TIER=${3:-quick}
 WT=$(mktemp -d /tmp/seedeval.XXXXXX)
 git -C /repo worktree add -q --detach "$WT/wt" HEAD || { echo "$D: cannot create worktree"; exit 2; }
